@@ -7,11 +7,17 @@
    norm_schema: entity parent lists sorted (the encoder sorts them), a bare namespace without declarations dropped; nothing else changes:
    enumerated types keep their values even when there are none (F44), optional flags, annotations, empty records, empty applies-to lists and
    the order of action parents are preserved.
-   The TEXT half (x/exp/schema/internal/parser) is not covered by a theorem: it is decided by the direct oracle of the check on text-, JSON-
-   and AST-born schemas (and a model of it is under construction: Impl/SchemaText.v). *)
+   TEXT half: Impl/SchemaText.v IS x/exp/schema/internal/parser (lexer, on-demand recursive-descent parser, printer) on bytes, tied to the
+   code by the stparse / stprint correspondences; Proofs/SchemaTextProofs1.v, SchemaTextProofs.v.
+   wf_text: the schemas the text syntax can express (declared names and references are identifier paths, quoted strings are valid UTF-8,
+   applies-to lists non-empty - the complement is the known finding F45 -, no type position uses the name Set ...).
+   norm_text: the parser does not classify type names, so every type name comes back as a reference (String -> the name "String"); it is the
+   resolver that classifies them, and it classifies them as before unless a declared type is named like a builtin (known finding F26,
+   C17_text_roundtrip_f26_refuted). *)
 From Coq Require Import List Bool.
 Import ListNotations.
-From Cedar Require Import Base.Json Lang.Value Impl.PolicyJson Impl.SchemaResolve Impl.SchemaJson Proofs.SchemaJsonProofs.
+From Cedar Require Import Base.Json Lang.Value Impl.PolicyJson Impl.SchemaResolve Impl.SchemaJson Impl.SchemaText Proofs.SchemaJsonProofs
+  Proofs.SchemaTextProofs1 Proofs.SchemaTextProofs.
 
 (* rendering as JSON and parsing the result yields the schema (in normal form) *)
 Theorem C17_json_roundtrip : forall s, wf_schema s = true -> dec_schema (enc_schema s) = DOk (norm_schema s).
@@ -37,6 +43,38 @@ Proof. exact resolve_norm. Qed.
 Theorem C17_decoder_total : forall j, dec_schema j <> DFuel.
 Proof. exact dec_schema_total. Qed.
 
+(* ---- text ---- *)
+(* rendering as schema text and parsing the result yields the schema (in the text normal form) *)
+Theorem C17_text_roundtrip : forall s, wf_text s = true -> parse_schema (print_schema s) = SOk (norm_text s).
+Proof. exact parse_print_schema. Qed.
+
+(* a second rendering is byte-identical to the first *)
+Theorem C17_second_text_rendering_identical : forall s, wf_text s = true -> print_schema (norm_text s) = print_schema s.
+Proof. exact second_text_rendering. Qed.
+
+Theorem C17_text_normal_form_stable : forall s, wf_text s = true -> norm_text (norm_text s) = norm_text s /\ wf_text (norm_text s) = true.
+Proof. exact norm_text_idempotent. Qed.
+
+(* the text round trip commutes with resolution (same verdict, same resolved schema) when no declared type is named like a builtin and
+   the schema uses no construct only JSON can express (an explicit EntityTypeRef, an unknown extension type) *)
+Theorem C17_text_roundtrip_preserves_resolution : forall s, wf_text s = true -> no_builtin_names s = true -> plain_schema s = true ->
+  resolve_schema (erase (norm_text s)) = resolve_schema (erase s).
+Proof. exact resolve_norm_text_names. Qed.
+
+(* ... and does NOT when a declared entity type is named String: the known finding F26 *)
+Definition C17_text_roundtrip_f26_refuted := f26_capture.
+(* ... nor is an empty applies-to list printable: the known finding F45 *)
+Definition C17_text_roundtrip_f45_refuted := f45_rejected.
+
+(* text -> JSON -> text: conversions between the formats commute with resolution, through the two round trips above
+   (JSON: C17_json_roundtrip_preserves_resolution on the parser's output, which is wf_schema: wf_text_wf_schema) *)
+Theorem C17_text_schemas_are_json_schemas : forall s, wf_text s = true -> wf_schema s = true.
+Proof. exact wf_text_wf_schema. Qed.
+
+(* the parser returns a verdict on every byte string *)
+Theorem C17_text_parser_total : forall src, parse_schema src <> SFuel.
+Proof. exact parse_schema_total. Qed.
+
 (* non-vacuity, and what each clause of wf_schema is for: see ex_kept, ex_norm, ex_clash, ex_bare_annots, ex_unsorted in the proof file *)
 Definition C17_example_kept := ex_kept.
 
@@ -45,3 +83,9 @@ Print Assumptions C17_second_rendering_identical.
 Print Assumptions C17_normal_form_stable.
 Print Assumptions C17_json_roundtrip_preserves_resolution.
 Print Assumptions C17_decoder_total.
+Print Assumptions C17_text_roundtrip.
+Print Assumptions C17_second_text_rendering_identical.
+Print Assumptions C17_text_normal_form_stable.
+Print Assumptions C17_text_roundtrip_preserves_resolution.
+Print Assumptions C17_text_schemas_are_json_schemas.
+Print Assumptions C17_text_parser_total.
